@@ -819,6 +819,26 @@ pub fn run_c19(args: &Args) {
         &[30_000_000_000, 0],
         "stale-index",
     );
+    // a write refused by the strict-silencer guard must leave no trace in what the CPU believes is current: afterwards a
+    // finite-loop write to that segment with Immediate / Ext is still refused (InvalidTransitionMode), and the clock runs
+    for (k, first) in [
+        Spec::Foci { n: 1, seg: 1, tr: Some((0xFF, 0)), rep: 0xFFFF, div: 10, ss: 21760, size: 2, seed: 31 },
+        Spec::GainStm { mode: 0, seg: 1, tr: Some((0xFF, 0)), rep: 0xFFFF, div: 10, size: 2, seed: 32 },
+        Spec::Mod { seg: 1, tr: Some((0xFF, 0)), rep: 0xFFFF, div: 2, n: 4, seed: 33 },
+        Spec::Foci { n: 2, seg: 1, tr: Some((0x00, 0)), rep: 1, div: 10, ss: 21760, size: 3, seed: 34 },
+    ]
+    .into_iter()
+    .enumerate()
+    {
+        for tr2 in [(0xFFu8, 0u64), (0xF0, 0)] {
+            let second = match k {
+                2 => Spec::Mod { seg: 1, tr: Some(tr2), rep: 1, div: 100, n: 6, seed: 35 },
+                1 => Spec::GainStm { mode: 1, seg: 1, tr: Some(tr2), rep: 2, div: 300, size: 3, seed: 36 },
+                _ => Spec::Foci { n: 3, seg: 1, tr: Some(tr2), rep: 0, div: 512, ss: 21760, size: 4, seed: 37 },
+            };
+            run_seq_c19(&mut out, &[Step::Send(Spec::SilSteps(10, 40, true)), Step::Send(first.clone()), Step::Send(second)], &[0, 1_000_000, 100_000_000], "refused-by-silencer-then-finite");
+        }
+    }
     // `zero_sound_speed_reachable`: a device sound speed below 7.8 mm/s is packed as 0; the firmware divides by it
     run_seq_c19(&mut out, &[Step::Send(Spec::Foci { n: 1, seg: 0, tr: Some((0xFF, 0)), rep: 0xFFFF, div: 40, ss: 0, size: 2, seed: 4 })], &[1_000_000], "zero-ss");
     // coverage review, gap 2: SysTime transitions that are accepted deep in a history (relative to the clock at send
